@@ -40,8 +40,8 @@ META = dict(
               "correspondence (unit operations, recorded engine traces) + engine-level oracle",
 )
 MODULE = "OPM.Properties.C36"
-REQUIRED = ["OPM.C36.no_silent_assignments", "OPM.C36.other_class_sites_pinned", "OPM.C36.dynamic_setattrs_pinned",
-            "OPM.C36.primitives_pinned", "OPM.C36.changed_reported",
+REQUIRED = ["OPM.C36.no_silent_assignments", "OPM.C36.dynamic_setattrs_not_on_tags",
+            "OPM.C36.every_field_has_a_notifying_primitive", "OPM.C36.changed_reported",
             "OPM.C36.report_value_current", "OPM.C36.report_no_duplicates", "OPM.C36.snapshot_reports_every_tag",
             "OPM.C36.blockTime_never_silent", "OPM.C36.scopeTime_never_silent", "OPM.C36.tick_boundary_clean"]
 CORPUS = Path(__file__).resolve().parent.parent / "corpus" / "C36"
